@@ -86,9 +86,9 @@ CLAIMED = {
         "Shapes beyond 2 bars x 4 entries are covered by the symbolic per-entry argument, not enumerated. Float log in the VLQ length is checked on neighbourhoods only. Trusted: CPython ast, abstract evaluator + engine/mididom.py (variants/c16.py), the event model in rules/c16.py.",
         "DESIGN.md section 2, C16"),
     "C17": (
-        "writer/reader agreement analysis: the writer's encoders are evaluated abstractly to bytes for representative parameters and fed to the reader's decoders (event parser, VLQ reader, header/chunk parsers, per-event arms of MIDI_to_Composition with the file parser summarised); rejection paths evaluated on malformed headers",
+        "writer/reader agreement analysis: the writer's encoders are evaluated abstractly to bytes for representative parameters and fed to the reader's decoders (event parser, VLQ reader, header/chunk parsers, per-event arms of MIDI_to_Composition with the file parser summarised); specialisation of the reader's event loop to ten rhythm shapes fed with the writer's event stream (C16's stream rule discharged here too); rejection paths evaluated on malformed headers",
         "Static: the reader decodes the writer's file header (format 1, track count, 72 ticks) and chunk length; note-on/off (incl. velocity 0 = off), program change and controller events come back with the fields the writer was given and the right number of bytes consumed; every one of the 30 keys, the tested meters, every tested bpm in 4..1000 (all of them in the thorough tier), track name, program number, pitch number, channel and velocity survive writer -> reader; the VLQ reader inverts the VLQ writer on boundary neighbourhoods; a bad header tag, track tag or format number raises.",
-        "Not decided: the bar-rebuilding state machine (delta times -> entries/rests/bar lines), e.g. a track beginning with a rest coming back shifted. Representative parameter values, not all 2^21 event encodings. Trusted: CPython ast, abstract evaluator + engine/mididom.py (variants/c17.py), C16.",
+        "The reader's event loop (delta times -> entries/rests/bars) is decided on ten rhythm shapes with concrete tick lengths (leading, inner and bar-crossing rests, chords, three meters, dotted/triplet lengths): each must flatten to the (ticks, pitches) sequence it was written from; rhythms outside those shapes are not decided. Representative parameter values, not all 2^21 event encodings. Trusted: CPython ast, abstract evaluator + engine/mididom.py (variants/c17.py), C16.",
         "DESIGN.md section 2, C17"),
     "C18": (
         "abstract interpretation of the sequencer with recorded hooks and a real observer (dispatch inlined) on bar/track shapes with symbolic pitches, channels, velocities, values and tempo, compared with an event model; symbolic evaluation of the control-change guards; registry / message-table / instrument-announcement evaluation; mutation-while-iterating lint",
